@@ -12,7 +12,9 @@
 (*   [k "row", mag, row, cells]       packet Y = row 1..24                 *)
 (*   "x26" "x28" "m29" "x30"          enhancement / service packets;       *)
 (*        x28 (format 1) and m29 carry grp, the G0 / national option       *)
-(*        designation of their first triplet (0 = the default)             *)
+(*        designation of their first triplet (0 = the default), and dc,    *)
+(*        the designation code of the packet: X/28/0, X/28/4, M/29/0 and   *)
+(*        M/29/4 designate character sets, the other codes do not          *)
 (*   "stuff" "nonsub" "badframe" "hamerr" "short" "overlong" "cut"         *)
 (*        stuffing, non-subtitle data unit, wrong framing code,            *)
 (*        uncorrectable Hamming error in the address, malformed units      *)
@@ -71,8 +73,8 @@ UnitStep(d, u, pts, opt) ==
     THEN [d EXCEPT !.cur = <<[d.cur[1] EXCEPT !.rows = Append(@, [row |-> u.row, cells |-> u.cells])]>>]
     ELSE d
   \* character-set designation: X/28 belongs to the page being received, M/29 to the whole magazine
-  ELSE IF u.k = "x28" THEN (IF d.recv /\ d.sel # <<>> /\ u.mag = d.sel[1] THEN [d EXCEPT !.x28 = u.grp] ELSE d)
-  ELSE IF u.k = "m29" THEN (IF d.sel # <<>> /\ u.mag = d.sel[1] THEN [d EXCEPT !.m29 = u.grp] ELSE d)
+  ELSE IF u.k = "x28" THEN (IF u.dc \in {0, 4} /\ d.recv /\ d.sel # <<>> /\ u.mag = d.sel[1] THEN [d EXCEPT !.x28 = u.grp] ELSE d)
+  ELSE IF u.k = "m29" THEN (IF u.dc \in {0, 4} /\ d.sel # <<>> /\ u.mag = d.sel[1] THEN [d EXCEPT !.m29 = u.grp] ELSE d)
   ELSE d
 \* the designation in force: the page's own (X/28) before the magazine's (M/29); the streams of the families carry at
 \* most one designation, so when it arrives relative to the rows it governs does not matter
